@@ -20,6 +20,7 @@ import (
 	"github.com/conduitio/conduit/pkg/pipeline"
 	"github.com/conduitio/conduit/pkg/processor"
 	"github.com/conduitio/conduit/pkg/provisioning"
+	"github.com/conduitio/conduit/pkg/provisioning/config"
 	"github.com/rs/zerolog"
 
 	"verif/internal/faultdb"
@@ -155,6 +156,11 @@ func New(cfg Config) (*Rig, error) {
 		lcForOthers = r.V1
 	}
 	r.Orc = orchestrator.NewOrchestrator(r.DB, r.Logger, r.Pipes, r.Conns, r.ProcSvc, r.Plugins, r.Procs, lcForOthers)
+	if r.V2 != nil {
+		r.Prov = provisioning.NewService(r.DB, r.Logger, r.Pipes, r.Conns, r.ProcSvc, r.Plugins, r.V2, "")
+	} else {
+		r.Prov = provisioning.NewService(r.DB, r.Logger, r.Pipes, r.Conns, r.ProcSvc, r.Plugins, r.V1, "")
+	}
 	return r, nil
 }
 
@@ -433,4 +439,35 @@ func (r *Rig) Shutdown() {
 	case <-done:
 	case <-time.After(3 * time.Second):
 	}
+}
+
+// ToConfig renders a topology as a provisioning config (processor generation
+// numbers from gens, default 1).
+func ToConfig(t Topo, gens map[string]int) config.Pipeline {
+	procs := func(ps []ProcSpec) []config.Processor {
+		var out []config.Processor
+		for _, p := range ps {
+			g := gens[p.ID]
+			if g == 0 {
+				g = 1
+			}
+			w := p.Workers
+			if w == 0 {
+				w = 1
+			}
+			out = append(out, config.Processor{ID: p.ID, Plugin: ProcPluginName, Settings: map[string]string{"vf.gen": fmt.Sprint(g)}, Workers: w, Condition: p.Condition})
+		}
+		return out
+	}
+	w, th := t.DLQWindow, t.DLQThresh
+	c := config.Pipeline{ID: t.Pipeline, Status: config.StatusStopped, Name: t.Pipeline,
+		DLQ: config.DLQ{Plugin: DLQPluginName, Settings: map[string]string{}, WindowSize: &w, WindowNackThreshold: &th}}
+	for _, s := range t.Sources {
+		c.Connectors = append(c.Connectors, config.Connector{ID: s.ID, Type: config.TypeSource, Plugin: SrcPluginName, Name: s.ID, Settings: map[string]string{"k": "v"}, Processors: procs(s.Procs)})
+	}
+	for _, d := range t.Dests {
+		c.Connectors = append(c.Connectors, config.Connector{ID: d.ID, Type: config.TypeDestination, Plugin: DstPluginName, Name: d.ID, Settings: map[string]string{"k": "v"}, Processors: procs(d.Procs)})
+	}
+	c.Processors = procs(t.PipeProcs)
+	return c
 }
